@@ -1,6 +1,6 @@
 (** C08 — external representations round-trip: property theorems only. *)
 From Coq Require Import ZArith List.
-From ChibiV Require Import C08.Datum C08.Tables Gen.C08_Tables Gen.C08_Leaf C08.Write C08.Read C08.Proofs C08.Proofs2.
+From ChibiV Require Import C08.Datum C08.Tables Gen.C08_Tables Gen.C08_Leaf C08.Write C08.Read C08.Proofs C08.Proofs2 C08.Labels C08.LabelProofs.
 Import ListNotations.
 Local Open Scope Z_scope.
 
@@ -43,3 +43,14 @@ Print Assumptions integer_roundtrip.
 Theorem isymbol_text_same : forall bs, bytes bs -> may_be_immediate bs -> write_symbol bs = bs.
 Proof. exact isymbol_text_same_ok. Qed.
 Print Assumptions isymbol_text_same.
+
+(* datum labels: every graph in the form the shared-structure writer (lib/srfi/38.scm) emits - labels
+   0,1,2,... in the order of the walk, ANY number of them, references to open and to closed labels,
+   labelled list tails - is rebuilt by the model of the native reader's #n= / #n# arm, whose label
+   table is the C's (24 slots, last slot = highest label, doubled when n+1 >= length by copying
+   length-1 slots and carrying the last one over), followed by sexp_fill_reader_labels.
+   Token level; vector-free graphs (the "#(" arm is the same list loop + list->vector; (K) runs). *)
+Theorem label_roundtrip : forall t c', novec t = true -> wf 0 t = Some c' ->
+  read_labels (wr t) = LOk (g2l t, []).
+Proof. exact label_roundtrip_ok. Qed.
+Print Assumptions label_roundtrip.
